@@ -310,6 +310,7 @@ def class_graph_case(n, mask, rng: random.Random, root_cls, root_kind, variant="
     optspell = [rng.choice(["opt", "pipe_none", "none_pipe"] if rng.random() < 0.25 else ["opt", "pipe_none"])
                 for _ in range(n)]
     classes = []
+    nest_twomod = variant == "twomod" and rng.random() < 0.4
     for i in range(n):
         module, qual, flav = MOD_A, f"C{i}", rng.choice(["dataclass", "dataclass", "namedtuple", "typeddict", "plainclass"])
         if variant == "nested":
@@ -319,6 +320,13 @@ def class_graph_case(n, mask, rng: random.Random, root_cls, root_kind, variant="
         elif variant == "twomod":
             module = MOD_A if i % 2 == 0 else MOD_B
             qual = "Node" if i < 2 else f"C{i}"
+            if nest_twomod and i < 2:
+                qual = "Outer.Node"          # same qualified name, nested, in two modules
+                flav = rng.choice(["dataclass", "plainclass"])
+        elif rng.random() < 0.12:
+            # nested classes are ordinary members of every stream
+            qual = f"Outer{i}.C{i}"
+            flav = rng.choice(["dataclass", "plainclass"])
         classes.append({"id": i, "module": module, "qual": qual, "flavour": flav, "fields": []})
     named = []
     # wrappers variant: most targets get ONE wrapped annotation shared by every class that refers to them
@@ -335,9 +343,9 @@ def class_graph_case(n, mask, rng: random.Random, root_cls, root_kind, variant="
                 elif w == "alias":
                     t = ("alias", MOD_A, nm, body); named.append(t)
                 elif w == "aliasstr":
-                    t = ("aliasstr", MOD_A, nm, f"list[C{j}]"); named.append(t)
+                    t = ("aliasstr", MOD_A, nm, f"list[{classes[j]['qual']}]"); named.append(t)
                 elif w == "aliasstr_plain":
-                    t = ("aliasstr", MOD_A, nm, f"C{j}"); named.append(t)
+                    t = ("aliasstr", MOD_A, nm, classes[j]["qual"]); named.append(t)
                 else:
                     t = ("final", body)
                 shared[j] = (w, t)
@@ -362,9 +370,9 @@ def class_graph_case(n, mask, rng: random.Random, root_cls, root_kind, variant="
                 elif w == "alias":
                     target = ("alias", MOD_A, nm, wrap(rng.choice(["list", "plain", "dict"]), ("cls", j))); named.append(target)
                 elif w == "aliasstr":
-                    target = ("aliasstr", MOD_A, nm, f"list[C{j}]"); named.append(target)
+                    target = ("aliasstr", MOD_A, nm, f"list[{classes[j]['qual']}]"); named.append(target)
                 elif w == "aliasstr_plain":
-                    target = ("aliasstr", MOD_A, nm, f"C{j}"); named.append(target)
+                    target = ("aliasstr", MOD_A, nm, classes[j]["qual"]); named.append(target)
                 else:
                     target = ("final", ("cls", j))
                     classes[i]["flavour"] = "dataclass"
@@ -389,7 +397,7 @@ def class_graph_case(n, mask, rng: random.Random, root_cls, root_kind, variant="
         elif w == "alias":
             root = ("alias", MOD_A, "RootAL", root); named.append(root)
         elif w == "aliasstr":
-            root = ("aliasstr", MOD_A, "RootSA", f"C{root_cls}"); named.append(root)
+            root = ("aliasstr", MOD_A, "RootSA", classes[root_cls]["qual"]); named.append(root)
         else:
             root = ("final", ("cls", root_cls))
     return {"classes": classes, "named": named, "root": root,
